@@ -73,6 +73,10 @@ Definition is_blank_m (c : N) : bool := (c =? cSP) || (c =? cTAB).
 Fixpoint leading_blanks (l : str) : str :=
   match l with c :: r => if is_blank_m c then c :: leading_blanks r else [] | [] => [] end.
 
+(* (fix 7d519c1) only the tabs of the leading whitespace are expanded: a tab further on may stand inside a string literal *)
+Definition expand_margin (l : str) : str :=
+  let m := leading_blanks l in expandtabs m 0 ++ skipn (length m) l.
+
 (* re.search(r"^[ \t]*[^# \t]", line): the first non-blank character exists and is not "#" *)
 Definition sets_margin (l : str) : bool :=
   match skipn (length (leading_blanks l)) l with
@@ -94,7 +98,7 @@ Fixpoint adjust_lines (ls : list str) (st : mstate) (margin : option str) : list
       let (inside, st') := in_multi_line st l in
       if inside then l :: adjust_lines r st' margin
       else
-        let l1 := expandtabs l 0 in
+        let l1 := expand_margin l in
         let margin' := match margin with
                        | None => if sets_margin l1 then Some (leading_blanks l1) else None
                        | Some _ => margin
@@ -141,7 +145,7 @@ Fixpoint flush_lines (ind : str) (ls : list str) (st : pstate) (margin : option 
       let (inside, st') := p_in_multi_line st l in
       if inside then l :: flush_lines ind r st' margin
       else
-        let l1 := expandtabs l 0 in
+        let l1 := expand_margin l in
         let margin' := match margin with
                        | None => if sets_margin l1 then Some (leading_blanks l1) else None
                        | Some _ => margin
